@@ -209,6 +209,19 @@ func runC11(c *Ctx) {
 	// R5 disconnect invalidates
 	c.Rule("R5")
 	{
+		f := c.Fn("(*" + pmsT + ").invalidate")
+		cf := f.CFG()
+		info := f.Info()
+		var marks []eng.Loc
+		for _, as := range assignsTo(f, func(l ast.Expr) bool { return eng.IsField(info, l, pmsT+".invalid") }) {
+			if isBoolConst(info, as.Rhs[0], true) {
+				marks = append(marks, cf.LocOf(as))
+			}
+		}
+		ok, w := cf.MustPass(cf.Entry(), eng.LocSet(cf.Exits(false)...), eng.LocSet(marks...))
+		c.CheckW(K(f.Name, "always marks invalid"), f.Pos(), ok && len(marks) >= 1, "a retired sender is marked invalid whether or not it holds a stream (otherwise a caller still holding it opens a stream nothing can reach)", "an exit of invalidate() is reachable without invalid = true", cf.DescribePath(w))
+	}
+	{
 		f := c.Fn(msiFn + "OnDisconnect")
 		info := f.Info()
 		dels := f.Calls("builtin.delete")
